@@ -55,6 +55,18 @@ def cases(tier, seed, phase):
                         if all(c != '250' for c in tup):
                             dev['data'] = '503' if eod == '250' else '554'      # what real servers say to DATA without a valid recipient
                         yield {'kind': 'smtp', 'lmtp': lmtp, 'pipelining': pipelining, 'nr': nr, 'dev': dev}
+    # a refused sender AND a refused recipient: without PIPELINING the recipients are never sent, so what the peer would have said to
+    # them must not show in the result; with PIPELINING each refused recipient keeps its own class (the model mutant
+    # `relay-no-pipelining-sends-rcpt-anyway` survived the campaign until these pairs existed)
+    for lmtp in (False, True):
+        for pipelining in (True, False):
+            for nr in (1, 2):
+                for mail in ('450', '550'):
+                    for r0 in ('450', '550'):
+                        dev = {'mail': mail, 'rcpt0': r0}
+                        if pipelining:
+                            dev['data'] = '503'
+                        yield {'kind': 'smtp', 'lmtp': lmtp, 'pipelining': pipelining, 'nr': nr, 'dev': dev}
     # a failure somewhere in the transaction AND a peer that mishandles the RSET that follows it: what each recipient was told stands,
     # whatever becomes of the RSET (LMTP: the per-recipient end-of-data verdicts; SMTP: the refusals)
     for lmtp in (False, True):
@@ -589,8 +601,10 @@ def smtp_monitor(case, dev, res):
                     hits.append(hit('c11.4xx-not-transient.smtp', 'a recipient refused with 4xx is not reported as a transient failure', observed=res, expected=dev))
         elif res == 'raised:perm':
             # somebody must have said 5xx about the whole message (or every recipient); a recipient with its own 4xx must not be failed for good
-            rcpt_replies_seen = all(dev.get(k, '250')[:1] in '2' for k in ('banner', 'ehlo', 'auth')) and \
-                (case['pipelining'] or dev.get('mail', '250')[:1] == '2')
+            # (only when the sender was accepted: what a server says to a pipelined RCPT after it refused MAIL is no verdict about the
+            # recipient — usually 503 — and _fail raises the MAIL failure for everybody when those replies are all of one kind;
+            # Corrections, fourth session)
+            rcpt_replies_seen = all(dev.get(k, '250')[:1] in '2' for k in ('banner', 'ehlo', 'auth')) and dev.get('mail', '250')[:1] == '2'
             if rcpt_replies_seen and any(x[:1] == '4' for x in rc):
                 hits.append(hit('c11.4xx-recipient-failed-permanently.smtp', 'the whole message failed permanently although a recipient was refused only transiently',
                                 observed=res, expected=dev))
